@@ -278,7 +278,10 @@ def cylinder_e1(rng):
         caps = sx.flag("fill_caps")
         tag = " [cylinder%s]" % (", capped" if caps else ", open")
         import numpy as np
-        P1, P2 = np.array([0.1, -0.2, 0.3]), np.array([0.4, 0.5, 1.7])
+        # axes in general position, exactly vertical, nearly vertical leaning along x / along y, horizontal
+        axes = [((0.1, -0.2, 0.3), (0.4, 0.5, 1.7)), ((0., 0., 0.), (0., 0., 2.)), ((0., 0., 0.), (0.05, 0., 1.)),
+                ((1., 1., 1.), (1., 1.04, 2.)), ((0., 0., 0.), (3., 0., 0.))]
+        P1, P2 = (np.array(p, dtype=float) for p in axes[sx.choice("axis", len(axes))])
         try:
             m = S.cylinder(P1, P2, radius=0.7, N=N, fill_caps=caps)
         except Exception as e:
@@ -494,6 +497,17 @@ def rings_e1(rngN, rngC):
         for i in range(1, len(m.vertices)):
             p = [float(x) for x in m.vertices[i]]
             sx.check_eq(math.hypot(p[0], p[1]), 1.0, "ring rim vertices lie on the unit circle" + tag, tol=1e-9)
+        if kind == "flat_ring":
+            # the angles at the centre add up to n_cover * 2 pi minus the requested defect (clamped like for ring)
+            tot = 0.
+            for F in [tuple(int(v) for v in f) for f in m.faces]:
+                i0 = F.index(0)
+                a = [float(x) for x in m.vertices[F[(i0 + 1) % 3]]]
+                b = [float(x) for x in m.vertices[F[(i0 + 2) % 3]]]
+                tot += math.atan2(a[0] * b[1] - a[1] * b[0], a[0] * b[0] + a[1] * b[1])
+            want = max(min(defect, 2 * math.pi - 0.01), 0.)
+            sx.check(abs(tot - (2 * math.pi - want) * cover) < 1e-6, "a flat ring turns by (2 pi - defect) per cover around its centre" + tag,
+                     detail="N=%d n_cover=%d defect %.3f: total angle %.6f" % (N, cover, defect, tot))
         if kind != "flat_ring" and cover == 1:
             # the apex is found by bisection on transcendental functions (outside symbolic reach): the achieved defect is
             # measured on the concrete result, 2 pi minus the sum of the apex angles
